@@ -42,7 +42,18 @@ Round      == iv.k = "plain" /\ \E op \in RoundOps : LET R == ExpOp(PI, op) IN R
 Intersect  == iv.k = "plain" /\ \E J \in PIntervals : LET R == ExpIntersection(PI, J)
                                                       IN Rep(R) /\ iv' = ToState(R) /\ act' = [k |-> "intersect", J |-> J]
 AngleShift == iv.k = "angle" /\ \E x \in Shifts : iv' = AState(ExpAngleShift(AI, x)) /\ act' = [k |-> "angle_shift", x |-> x]
-Next == Construct \/ Add \/ Sub \/ Mul \/ Div \/ Round \/ Intersect \/ AngleShift
+(* end point assignment through the public setters: just another transition of the interval *)
+SetStart   == \/ iv.k = "plain" /\ \E x \in PVals : LET R == ExpSetStart(PI, x)
+                                                   IN R.res = "ok" /\ iv' = ToState(R) /\ act' = [k |-> "set_start", x |-> x]     \* x > end: rejected
+              \/ iv.k = "angle" /\ InDomain(AI) /\ \E x \in AStarts :
+                   LET R == ExpAngleSetStart(AI, x)
+                   IN AngleSetAdmissible(x, AI.a + AI.len) /\ R.res = "ok" /\ iv' = AState(R) /\ act' = [k |-> "set_start", x |-> x]
+SetEnd     == \/ iv.k = "plain" /\ \E x \in PVals : LET R == ExpSetEnd(PI, x)
+                                                   IN R.res = "ok" /\ iv' = ToState(R) /\ act' = [k |-> "set_end", x |-> x]
+              \/ iv.k = "angle" /\ InDomain(AI) /\ \E x \in AStarts :
+                   LET R == ExpAngleSetEnd(AI, x)
+                   IN AngleSetAdmissible(AI.a, x) /\ R.res = "ok" /\ iv' = AState(R) /\ act' = [k |-> "set_end", x |-> x]
+Next == Construct \/ SetStart \/ SetEnd \/ Add \/ Sub \/ Mul \/ Div \/ Round \/ Intersect \/ AngleShift
 Spec == Init /\ [][Next]_vars
 
 (* second angle intervals J used with A: every offset d of the start around the circle x the lengths JLens *)
@@ -66,6 +77,8 @@ InvMul               == IsP => LawOps(PI, MulOps)
 InvDiv               == IsP => LawOps(PI, DivOps)
 InvRound             == IsP => LawOps(PI, RoundOps)
 InvConstruct         == LawConstruct
+InvSet               == IsP => LawSet(PI)
+InvAngleSet          == (IsA /\ InDomain(AI)) => LawAngleSet(AI)
 InvWellFormed        == (IsP => PI \in PIntervals) /\ (IsA => AI \in AIntervals)
 InvWraps             == IsA => LawWraps(AI)
 InvAngleContains     == IsA => LawAngleContains(AI)
@@ -82,10 +95,57 @@ StepOK(I, op, R) ==
          R.k = "plain" /\ R.s <= R.e /\ ImageOK([s |-> I.s, e |-> I.e], op, Ok(Fine(R.s), Fine(R.e)))
     [] op.k = "intersect" ->
          R.k = "plain" /\ R.s <= R.e /\ H([s |-> R.s, e |-> R.e]) = H([s |-> I.s, e |-> I.e]) \cap H(op.J)
+    [] op.k \in {"set_start", "set_end"} ->             \* the successor is the freshly constructed interval with the new bounds
+         IF I.k = "plain"
+         THEN LET ns == IF op.k = "set_start" THEN op.x ELSE I.s   ne == IF op.k = "set_end" THEN op.x ELSE I.e
+              IN R.k = "plain" /\ R.s <= R.e /\ R = PState([s |-> ns, e |-> ne])
+                 /\ H([s |-> R.s, e |-> R.e]) = {p \in HGrid : 2 * ns <= p /\ p <= 2 * ne}
+         ELSE LET ns == IF op.k = "set_start" THEN op.x ELSE I.a   ne == IF op.k = "set_end" THEN op.x ELSE I.a + I.len
+                  RA == [a |-> R.a, len |-> R.len]
+              IN R.k = "angle" /\ RA \in AIntervals /\ InDomain(RA) /\ RA = [a |-> ns, len |-> ne - ns]
+                 /\ ASetT[RA] = {p \in Residues2 : \E j \in Wraps : 2 * ns <= p + T2 * j /\ p + T2 * j <= 2 * ne}
     [] op.k = "angle_shift" ->
          /\ R.k = "angle" /\ R.len >= 0 /\ InDomain([a |-> R.a, len |-> R.len])
          /\ ASetT[[a |-> R.a, len |-> R.len]] = {(p + 2 * op.x) % T2 : p \in ASetT[[a |-> I.a, len |-> I.len]]}
 StepImage == [][StepOK(iv, act', iv')]_vars
+
+(* ---- re-bounding scenarios: construct, (query once,) assign new bounds through the setters, query again ---- *)
+Step(f, x) == [f |-> f, x |-> x]
+(* plain: targets J reached from I by one or two assignments; the path keeps start <= end at every step *)
+PSetTargets(I) == {J \in PIntervals : /\ J # I
+                                      /\ \/ J.e = I.e /\ J.s \in {-K, I.s - 2, I.s + 1, I.e}
+                                         \/ J.s = I.s /\ J.e \in {I.s, I.e - 1, I.e + 2, K}
+                                         \/ J.s = I.s - 1 /\ J.e = I.e + 1
+                                         \/ J.s = I.s + 1 /\ J.e = I.e - 1
+                                         \/ J.s = I.e + 1 /\ J.e = I.e + 2}
+PPath(I, J) == LET ss == IF J.s = I.s THEN <<>> ELSE <<Step("start", J.s)>>
+                   ee == IF J.e = I.e THEN <<>> ELSE <<Step("end", J.e)>>
+               IN IF J.s <= I.e THEN ss \o ee ELSE ee \o ss
+PSetCase(I, J) == [s |-> J.s, e |-> J.e, path |-> PPath(I, J),
+                   xs |-> {v + d : v \in {J.s, J.e}, d \in {-1, 0, 1}} \cup {I.s, I.e},                   \* queries around new and at old bounds
+                   js |-> {<<I.s, I.e>>, <<J.s, J.e>>, <<MinOf(I.s, J.s), MaxOf(I.e, J.e)>>, <<J.e, J.e + 1>>, <<J.s - 1, J.s>>}]
+(* angle: absolute bounds <<x, y>>; only intervals inside the domain (stored end points = the floats passed in) *)
+ASetTargets(A) ==
+  LET a == A.a  b == A.a + A.len
+      cands == {<<x, b>> : x \in {MaxOf(-Turn, b - (Turn - 1)), a - 1, a + 1, b}}
+               \cup {<<a, y>> : y \in {a, b - 1, b + 1, MinOf(Turn, a + Turn - 1)}}
+               \cup {<<a - 1, b + 1>>, <<a + 1, b - 1>>, <<a + 2, b + 13>>}
+  IN {c \in cands : /\ c # <<a, b>> /\ c[1] <= c[2] /\ AngleSetAdmissible(c[1], c[2])
+                    /\ \/ (c[1] <= b /\ AngleSetAdmissible(c[1], b))          \* start first is admissible
+                       \/ (a <= c[2] /\ AngleSetAdmissible(a, c[2]))}         \* or end first
+APath(A, c) == LET a == A.a  b == A.a + A.len
+                   ss == IF c[1] = a THEN <<>> ELSE <<Step("start", c[1])>>
+                   ee == IF c[2] = b THEN <<>> ELSE <<Step("end", c[2])>>
+               IN IF c[1] <= b /\ AngleSetAdmissible(c[1], b) THEN ss \o ee ELSE ee \o ss
+ASetCase(A, c) == LET a == A.a  b == A.a + A.len  R == [a |-> c[1], len |-> c[2] - c[1]]
+                  IN [a |-> R.a, len |-> R.len, path |-> APath(A, c),
+                      ths |-> {th \in {v + d : v \in {c[1], c[2]}, d \in {-1, 0, 1}} \cup {a, b}             \* around new, at old bounds,
+                                      \cup {v + w : v \in {c[1], c[2]}, w \in {-Turn, Turn}} : -ThMax <= th /\ th <= ThMax},   \* and a turn away
+                      js |-> {<<J.a, J.len>> : J \in {A, R, [a |-> R.a, len |-> MinOf(R.len + 1, Turn - 1)]}
+                                                     \cup (IF R.len > 0 THEN {[a |-> R.a + 1, len |-> R.len - 1]} ELSE {})
+                                                     \cup (IF a <= c[2] /\ c[2] - a < Turn THEN {[a |-> a, len |-> c[2] - a]} ELSE {})},
+                      shifts |-> {5, -13}]
+ASets(A) == IF InDomain(A) /\ A.len \in JLens THEN {ASetCase(A, c) : c \in ASetTargets(A)} ELSE {}
 
 (* ---- generation: one case per interval, with the argument domains of every operation ---- *)
 HQueries == {2 * x : x \in -(K + 2)..(K + 2)}
@@ -96,10 +156,12 @@ Emit ==
                                  xs |-> -(K + 2)..(K + 2), shifts |-> PVals,
                                  js |-> {<<J.s, J.e>> : J \in PIntervals},
                                  mul |-> {<<c.n, c.d>> : c \in Scalars \cup {Zero}}, div |-> {<<c.n, c.d>> : c \in Scalars},
-                                 rounds |-> Rounds])>>)
+                                 rounds |-> Rounds,
+                                 sets |-> {PSetCase(PI, J) : J \in PSetTargets(PI)}])>>)
   ELSE PrintT(<<"CASE", ToJson([kind |-> "angle", a |-> iv.a, len |-> iv.len,
                                  ths |-> -ThMax..ThMax, shifts |-> Shifts,
                                  js |-> {<<J.a, J.len>> : J \in JsFor(AI)},
+                                 sets |-> ASets(AI),
                                  \* size of the EITHER bands among the arguments of this case (summed up in the evidence)
                                  either |-> [angle_contains |-> Cardinality({th \in -ThMax..ThMax : ExpAngleContains(AI, 2 * th) = "EITHER"}),
                                              angle_contains_interval |-> Cardinality({J \in JsFor(AI) : ExpAngleContainsInterval(AI, J) = "EITHER"}),
